@@ -68,6 +68,21 @@ impl<'a, T: ?Sized> MutexGuard<'a, T> {
     }
 }
 
+impl<T: ?Sized> Drop for MutexGuard<'_, T> {
+    fn drop(&mut self) {
+        // shuttle's own yield at an unlock comes BEFORE the release (the mutex is still held there),
+        // and the next one only at the task's next synchronisation operation: whatever the thread
+        // does in between (read an atomic flag, look at a local queue) would be glued to the
+        // critical section. A real thread can be preempted right after the release, so this is a
+        // scheduling point of its own, classified for the scheduler.
+        if let Some(g) = self.guard.take() {
+            drop(g);
+            let db = std::any::type_name::<T>().ends_with("GuardedDbFields");
+            sched_point(if db { YieldKind::DbGuardDrop } else { YieldKind::GuardDrop });
+        }
+    }
+}
+
 impl<T: ?Sized> Deref for MutexGuard<'_, T> {
     type Target = T;
     fn deref(&self) -> &T {
@@ -189,6 +204,8 @@ impl<T: ?Sized> RwLock<T> {
         st.writer = false;
         drop(st);
         self.cv.notify_all();
+        // a scheduling point after the release, as for the mutex
+        sched_point(YieldKind::GuardDrop);
     }
 }
 
